@@ -217,7 +217,54 @@ func fluentNames(isObj bool) map[string]bool {
 }
 
 // a derived value stored in other containers is handed back as the identical outer value by every retrieval path
+// storing an INNER embedding level of a derived value (the embedded List/Object itself, or the middle level of a two-level type)
+// through any entry point must leave the registration of the outer value alone: Ego and the fluent methods still answer the outer value
+func innerLevelsStored(f *failer, outer any) {
+	var inners []any
+	switch o := outer.(type) {
+	case *MyList:
+		inners = []any{o.List}
+	case *MyList2:
+		inners = []any{o.MyList, o.MyList.List}
+	case *MyObj:
+		inners = []any{o.Object}
+	case *MyObj2:
+		inners = []any{o.MyObj, o.MyObj.Object}
+	}
+	for k, in := range inners {
+		switch k % 4 {
+		case 0:
+			at.NewList(in)
+		case 1:
+			at.NewObject("inner", in)
+		case 2:
+			at.NewList().Add(1, in)
+		default:
+			at.NewObject().SetTF(".x#0", in)
+		}
+		at.NewList([]any{in})
+		at.NewObject().Set("k", in)
+		switch o := outer.(type) {
+		case at.List:
+			if o.Ego() != outer {
+				f.fail("after an inner embedding level (%T) was stored in another container, Ego() of the derived value answers %T instead of the registered outer %T", in, o.Ego(), outer)
+			}
+			if ret := o.Add(); ret != outer {
+				f.fail("after an inner embedding level was stored elsewhere, Add() returns %T instead of the outer %T", ret, outer)
+			}
+		case at.Object:
+			if o.Ego() != outer {
+				f.fail("after an inner embedding level (%T) was stored in another container, Ego() of the derived value answers %T instead of the registered outer %T", in, o.Ego(), outer)
+			}
+			if ret := o.Set(); ret != outer {
+				f.fail("after an inner embedding level was stored elsewhere, Set() returns %T instead of the outer %T", ret, outer)
+			}
+		}
+	}
+}
+
 func storedChecks(f *failer, outer any, isObj bool) {
+	defer innerLevelsStored(f, outer)
 	holderL := at.NewList(0, outer, "x")
 	holderO := at.NewObject("d", outer, "s", 1)
 	deep := at.NewObject("l", at.NewList(outer))
@@ -383,6 +430,29 @@ func asyncCase(r *R, kind, n, procs int, delayPattern int) *Case {
 	var finished int64
 	allDone := false
 	resultOK := true
+	// delay pattern 5 (ForEachAsync only): the callbacks complete in REVERSE order - callback i returns only after callback i+1 has
+	// returned. Every order of completion is an admissible schedule of n concurrent workers; an implementation that runs the
+	// callbacks one after another (or on fewer workers than elements) cannot realise it and would wait forever: each wait is
+	// bounded, and the first one that expires is reported.
+	doneCh := make([]chan struct{}, n+1)
+	for i := range doneCh {
+		doneCh[i] = make(chan struct{})
+	}
+	var expired int32
+	waitNext := func(i int) {
+		if delayPattern != 5 || i+1 >= n || atomic.LoadInt32(&expired) != 0 {
+			return
+		}
+		select {
+		case <-doneCh[i+1]:
+		case <-time.After(3 * time.Second):
+			if atomic.CompareAndSwapInt32(&expired, 0, 1) {
+				mu.Lock()
+				f.fail("ForEachAsync: callback %d waited 3 s for callback %d to return - the callbacks do not run concurrently (GOMAXPROCS=%d, n=%d)", i, i+1, procs, n)
+				mu.Unlock()
+			}
+		}
+	}
 	switch kind {
 	case 0, 1:
 		l := at.NewList(vals...)
@@ -428,7 +498,11 @@ func asyncCase(r *R, kind, n, procs int, delayPattern int) *Case {
 				log = append(log, i)
 				mu.Unlock()
 				delay(i + 1)
+				waitNext(i)
 				atomic.AddInt64(&finished, 1)
+				if i >= 0 && i < n {
+					close(doneCh[i])
+				}
 			})
 			allDone = atomic.LoadInt64(&finished) == int64(n)
 			if ret != l {
@@ -483,7 +557,11 @@ func asyncCase(r *R, kind, n, procs int, delayPattern int) *Case {
 				log = append(log, i)
 				mu.Unlock()
 				delay(i + 1)
+				waitNext(i)
 				atomic.AddInt64(&finished, 1)
+				if i >= 0 && i < n {
+					close(doneCh[i])
+				}
 			})
 			allDone = atomic.LoadInt64(&finished) == int64(n)
 			if ret != o {
@@ -642,14 +720,19 @@ func readersCase(r *R, goroutines int) *Case {
 }
 
 func genC15(r *R, n int, tier string, out *Out) {
-	sizes := []int{0, 1, 2, 7, 64}
+	sizes := []int{0, 1, 2, 3, 7, 8, 9, 10, 13, 15, 16, 17, 23, 33, 63, 64, 65, 100, 129}
 	if thorough {
-		sizes = append(sizes, 257, 1000)
+		sizes = append(sizes, 257, 1000, 1025)
 	}
 	procs := []int{1, 2, 4, 16}
 	for i := 0; i < n; i++ {
 		if i%5 == 4 {
 			out.emit(readersCase(r, 2+r.Intn(7)))
+			continue
+		}
+		if i%7 == 3 {
+			// reverse-order completion (ForEachAsync of lists and objects), mostly on one processor
+			out.emit(asyncCase(r, pickOf(r, []int{0, 2}), pickOf(r, []int{2, 3, 4, 12}), pickOf(r, []int{1, 1, 2, 16}), 5))
 			continue
 		}
 		out.emit(asyncCase(r, r.Intn(4), pickOf(r, sizes), pickOf(r, procs), r.Intn(5)))
